@@ -111,3 +111,38 @@ Fixpoint h2_meta_seq_with (run : bool -> N -> N -> list (N * list hfield) -> met
       res :: match e' with Some e => h2_meta_seq_with run e max_list r | None => [] end
   end.
 Definition h2_meta_seq := h2_meta_seq_with h2_meta_from.
+
+(* ---------- the rest of the decoder's carried state: is it between two blocks? ---------- *)
+(* Besides the emit flag the hpack decoder carries its position: after hdec.Close() it expects the
+   first field of a block (only there may a dynamic table size update stand) and holds no unfinished
+   field representation.  Per block two more inputs: su = the block opens with a size update (the peer
+   takes a new SETTINGS_HEADER_TABLE_SIZE into use), torn = the block ends inside a field
+   representation.  readMetaFrame calls hdec.Close() BEFORE it looks at the malformed-field verdict:
+   a torn block is a connection COMPRESSION_ERROR whatever else it holds, and every block that does
+   not kill the connection leaves the decoder closed.  close_first = false: the malformed-field
+   stream error returned before Close (for the refutation). *)
+Definition h2_meta_run2 (close_first : bool) (dec : bool * bool) (* emit flag, decoder still open *)
+           (max_list sid : N) (su torn : bool) (frags : list (N * list hfield)) : meta_res * option (bool * bool) :=
+  if snd dec && su then (MErr (EConn ErrCodeCompression), None)   (* size update in mid-block: hpack refuses *)
+  else
+    match h2_meta_run true max_list sid frags with
+    | (r, None) => (r, None)
+    | (r, Some e) =>
+        let invalid_err := match meta_frags {| ms_remain := max_list; ms_regular := false; ms_invalid := false;
+                                               ms_emit := true; ms_trunc := false; ms_fields := [] |} frags with
+                           | Ok st => ms_invalid st | Err _ => false end in
+        if close_first then
+          if torn then (MErr (EConn ErrCodeCompression), None) else (r, Some (e, false))
+        else
+          if invalid_err then (r, Some (e, true))                  (* returned before Close: left open *)
+          else if torn then (MErr (EConn ErrCodeCompression), None) else (r, Some (e, false))
+    end.
+
+Fixpoint h2_meta_seq2 (close_first : bool) (dec : bool * bool) (max_list : N)
+         (blocks : list (N * (bool * bool) * list (N * list hfield))) : list meta_res :=
+  match blocks with
+  | [] => []
+  | (sid, (su, torn), frags) :: r =>
+      let '(res, d') := h2_meta_run2 close_first dec max_list sid su torn frags in
+      res :: match d' with Some d => h2_meta_seq2 close_first d max_list r | None => [] end
+  end.
